@@ -73,6 +73,30 @@ def join(sep, xs):
     return sep.join(xs)
 
 
+class Splice:
+    """placeholder inside a concrete list: all elements of a symbolic sequence, in order, at this position"""
+
+    def __init__(self, seq):
+        self.seq = seq
+
+    def __repr__(self):
+        return f"<all of {self.seq.ident}>"
+
+    def render(self, c):
+        return repr(self)
+
+
+def extend(target, xs):
+    COUNTS["join"] += 1
+    if isinstance(xs, SymSeq):
+        COUNTS["symbolic"] += 1
+        if isinstance(target, SymSeq):
+            raise Unsupported("extend of a symbolic sequence")
+        target.append(Splice(xs))
+        return None
+    return target.extend(xs)
+
+
 # ---- T1 (append form)
 def for_app(target, f, xs, method="append"):
     COUNTS["for_app"] += 1
@@ -80,12 +104,35 @@ def for_app(target, f, xs, method="append"):
         COUNTS["symbolic"] += 1
         if isinstance(target, SymSeq) or len(target) != 0:
             raise Unsupported("append-loop over a symbolic sequence into a non-empty list")
-        if method != "append":
-            raise Unsupported("extend-loop over a symbolic sequence")
-        return comp(f, xs)
+        r = comp(f, xs)
+        if method == "extend":
+            if not isinstance(r.elem, list):
+                raise Unsupported("extend-loop whose chunk is not a concrete-length list")
+            r.flatten = True      # the sequence is the concatenation of the chunks
+        return r
     for x in xs:
         getattr(target, method)(f(x))
     return target
+
+
+# ---- T1 (general form)
+def for_each(xs, body, loop_id):
+    COUNTS["for_app"] += 1
+    if isinstance(xs, SymSeq):
+        COUNTS["symbolic"] += 1
+        c = ctx()
+        lc = getattr(c, "loop_contracts", {}).get(loop_id.split(":")[1])
+        if lc is None:
+            raise Unsupported(f"loop {loop_id} over a symbolic sequence has no loop contract")
+        # inductive step: establish Inv(k) for a generic k, run the body on element k, check Inv(k+1)
+        lc.establish(xs, "k")
+        body(xs.elem)
+        lc.check(xs, "k+1")
+        # exit: continue after the loop with Inv(len)
+        lc.establish(xs, "len")
+        return
+    for x in xs:
+        body(x)
 
 
 # ---- builtins on proxies
@@ -124,6 +171,8 @@ def b_int(x=0, base=None):
     if isinstance(x, SymInt):
         return x
     if isinstance(x, Name):
+        if isinstance(x, pyvc.HexStr) and not x.with_0x and base == 16:
+            return SymInt(__import__("z3").Int("hexval!" + x.ident), "hexval(" + x.ident + ")")
         if isinstance(x, pyvc.HexStem):
             if base == 16:
                 return SymInt(__import__("z3").Int("hexval!" + x.ident), "hexval(" + x.ident + ")")
